@@ -143,12 +143,14 @@ func scenFED(s *sched.Sim, cfg Config, res *Result) {
 	wf := worldFeatures(s, cfg)
 	of := opFeatures(s, cfg)
 	maxSvc := 3
-	maxDepth := 4
+	maxDepth := 6
 	if cfg.Thorough {
-		maxSvc, maxDepth = 4, 6
+		maxSvc, maxDepth = 4, 8
 	}
 	w := gql.Generate(s.T, wf, maxSvc)
 	if prop == "C12" {
+		// long lists: keep the selections shallower so that answers stay small
+		maxDepth = 4
 		w.LenProf = [][]int{{0, 1, 5, 6}, {2, 3, 6, 6}, {1, 4, 4, 5}}[s.T.Choose(3)]
 		w.NEntities = 2
 	}
@@ -200,6 +202,26 @@ func scenFED(s *sched.Sim, cfg Config, res *Result) {
 	} else if end == sched.StepBudget {
 		res.Verdict, res.Anomaly = "anomaly", "step budget exhausted in FED"
 		return
+	}
+	if prop == "C12" && end == sched.Done {
+		// the same operations on the same world with every list 2x longer: the bound must not move
+		w.Mult = 2
+		var again []*fedOp
+		for i, fo := range ops {
+			again = append(again, &fedOp{op: fo.op, client: fmt.Sprintf("x%d", i), want: env.reference(fo.op)})
+		}
+		done2 := false
+		s.Go("cx", func() {
+			for _, fo := range again {
+				fo.resp = env.post(fo.client, []clientReq{{Query: fo.op.Text, Variables: fo.op.Vars, OperationName: fo.op.OpName}}, false)
+			}
+			done2 = true
+		})
+		if s.Run(func() bool { return done2 && len(s.Alive()) == 0 }, 200000, 10*time.Second) == sched.Hang {
+			res.Violate(prop+"/hang", "requests on the 2x world did not finish: parked=%v", s.ParkedLabels())
+		}
+		ops = append(ops, again...)
+		res.Probe("c12.replayed-on-2x-longer-lists")
 	}
 	// multi-level & stitching probes
 	stitched := false
